@@ -18,3 +18,8 @@ for cd in cli.load_contracts(pid):
             for o in r.obligations:
                 if os.environ["DBG_ALL"] in o.label:
                     print(o.label, o.status, getattr(o, "choices", None), getattr(o, "model", None))
+        if os.environ.get("DBG_NOTE"):
+            seen=set()
+            for o in r.obligations:
+                if o.status != "proved" and o.kind != "canary" and o.label not in seen:
+                    seen.add(o.label); print("NOTE", o.label, "|", o.note[:300], "|", o.model)
